@@ -237,6 +237,9 @@ func stringChains(v ssa.Value, maxLen int) []chainResult {
 				if phiEdgeKnownEmpty(x, i) {
 					continue // the edge is only taken when the string is "" (trivially normalised)
 				}
+				if phiEdgeFailed(x, i) {
+					continue // the edge is only taken when an error is pending that the function tests afterwards
+				}
 				walk(e, steps, seen)
 			}
 			return
@@ -314,4 +317,63 @@ func phiEdgeKnownEmpty(phi *ssa.Phi, i int) bool {
 		eqSucc = 1
 	}
 	return pred.Succs[eqSucc] == phi.Block()
+}
+
+
+// phiEdgeFailed: edge i of phi is only taken when an error value e is non-nil (the branch that leads to the edge
+// – through blocks with a single predecessor – tested e against nil and took the non-nil side), that same e is
+// edge i of a sibling error phi E of the block, and E is tested against nil later in the function. Success returns
+// (`return v, nil` after `if E != nil { return …, E }`) never see the value of such an edge.
+func phiEdgeFailed(phi *ssa.Phi, i int) bool {
+	blk := phi.Block()
+	// non-nil error values known on the edge
+	known := map[ssa.Value]bool{}
+	cur := blk.Preds[i]
+	next := blk
+	for depth := 0; depth < 6 && cur != nil; depth++ {
+		if len(cur.Instrs) > 0 {
+			if ifi, ok := cur.Instrs[len(cur.Instrs)-1].(*ssa.If); ok {
+				if b, isB := ifi.Cond.(*ssa.BinOp); isB && (b.Op == token.EQL || b.Op == token.NEQ) {
+					var e ssa.Value
+					if isNilConst(b.Y) {
+						e = b.X
+					} else if isNilConst(b.X) {
+						e = b.Y
+					}
+					if e != nil && isErrorType(e.Type()) {
+						nonNilSucc := 0
+						if b.Op == token.EQL {
+							nonNilSucc = 1
+						}
+						if len(cur.Succs) == 2 && cur.Succs[nonNilSucc] == next && cur.Succs[1-nonNilSucc] != next {
+							known[e] = true
+						}
+					}
+				}
+			}
+		}
+		if len(cur.Preds) != 1 {
+			break
+		}
+		next, cur = cur, cur.Preds[0]
+	}
+	if len(known) == 0 {
+		return false
+	}
+	for _, ins := range blk.Instrs {
+		sib, ok := ins.(*ssa.Phi)
+		if !ok {
+			break
+		}
+		if sib == phi || !isErrorType(sib.Type()) || !known[sib.Edges[i]] {
+			continue
+		}
+		// E is tested against nil somewhere
+		for _, ref := range *sib.Referrers() {
+			if b, isB := ref.(*ssa.BinOp); isB && (b.Op == token.EQL || b.Op == token.NEQ) && (isNilConst(b.X) || isNilConst(b.Y)) {
+				return true
+			}
+		}
+	}
+	return false
 }
